@@ -248,7 +248,7 @@ def chainStep (env : ChainEnv) (st : Json) : ChainEnv × Json :=
     match env.get ((str? (getD st "x")).getD "a"), env.get ((str? (getD st "y")).getD "b"), rat? (getD st "w"),
           rat? (getD st "rel"), rat? (getD st "abs") with
     | some x, some y, some w, some rel, some ab =>
-      match add x y w { rel := rel, abs := ab } with
+      match addU x y w { rel := rel, abs := ab } with
       | .ok h1 => ({ env with c := some h1 }, Json.mkObj [("ok", Json.bool true)])
       | .error er => (env, excObj er)
     | _, _, _, _, _ => (env, err "bad add step")
@@ -295,7 +295,7 @@ def handle (j : Json) : Json :=
     match parseEdges (getD j "edges"), (if (getD j "bins").isNull then some none else (parseNArr (getD j "bins")).map some),
           rat? (getD j "init") with
     | some e, some b, some i =>
-      match mkHist e b i with
+      match mkHistU e b i with
       | .ok h => Json.mkObj [("h", histJson h)]
       | .error er => excObj er
     | _, _, _ => err "bad mk_hist args"
@@ -333,7 +333,7 @@ def handle (j : Json) : Json :=
   | some "add" =>
     match parseHist (getD j "a"), parseHist (getD j "b"), rat? (getD j "w"), rat? (getD j "rel"), rat? (getD j "abs") with
     | some a, some b, some w, some rel, some ab =>
-      match add a b w { rel := rel, abs := ab } with
+      match addU a b w { rel := rel, abs := ab } with
       | .ok h => Json.mkObj [("h", histJson h)]
       | .error er => excObj er
     | _, _, _, _, _ => err "bad add args"
@@ -392,7 +392,7 @@ def handle (j : Json) : Json :=
     match parseHist (getD j "h"), bool? (getD j "to_csv"),
           (if (getD j "ctx_dup").isNull then some none else (bool? (getD j "ctx_dup")).map some), bool? (getD j "dup") with
     | some h, some tc, some cd, some d =>
-      match toCsvHist h tc cd d with
+      match toCsvHistU h tc cd d with
       | .ok .unchanged => Json.mkObj [("unchanged", Json.bool true)]
       | .ok (.table rows) =>
         let (dim, nbins, nout, ranges) := histContext h
@@ -466,7 +466,7 @@ def handle (j : Json) : Json :=
           str? (getD j "sep"), str? (getD j "row_end"), str? (getD j "last_row_end") with
     | some h, some tc, some cd, some d, some sep, some re, some lre =>
       let f : CsvFormat := { separator := sep, header := str? (getD j "header"), rowEnd := re, lastRowEnd := lre }
-      match toCsvHistText f h tc cd d with
+      match toCsvHistTextU f h tc cd d with
       | .ok .unchanged => Json.mkObj [("unchanged", Json.bool true)]
       | .ok (.text t) => Json.mkObj [("text", Json.str t)]
       | .error er => excObj er
